@@ -46,3 +46,4 @@ def run(ctx, R):
     R.run(flow.check_propagate, ctx, R, modules=('streamz.sources',), note_modules=())
     for k in [k for k in R.obs if k[0] == 'PROPAGATE' and 'FromKafkaBatched' not in k[1]]:
         del R.obs[k]
+META['level'] += ' SEED-FROM-COMMITTED cursor-moved-only-by-planning: once polling has begun only the planning loop stores into self.positions[...].'
